@@ -30,21 +30,21 @@ var recipeSites = []Site{
 	{"headerMAC.result", pkgAge, "", "headerMAC", "ret:0", []string{"C05", "C03"}},
 	{"streamKey.result", pkgAge, "", "streamKey", "ret:0", []string{"C05", "C01", "C02"}},
 	// X25519
-	{"X25519Recipient.Wrap.stanzas", pkgAge, "X25519Recipient", "Wrap", "ret:0", []string{"C05", "C01", "C06"}},
-	{"X25519Identity.unwrap.result", pkgAge, "X25519Identity", "unwrap", "ret:0", []string{"C05", "C01"}},
+	{"X25519Recipient.Wrap.stanzas", pkgAge, "X25519Recipient", "Wrap", "ret:0", []string{"C04", "C05", "C01", "C06"}},
+	{"X25519Identity.unwrap.result", pkgAge, "X25519Identity", "unwrap", "ret:0", []string{"C04", "C05", "C01"}},
 	{"X25519Identity.unwrap.guards", pkgAge, "X25519Identity", "unwrap", "facts:age.aeadDecrypt", []string{"C05", "C01"}},
-	{"newX25519IdentityFromScalar.result", pkgAge, "", "newX25519IdentityFromScalar", "ret:0", []string{"C05", "C01"}},
+	{"newX25519IdentityFromScalar.result", pkgAge, "", "newX25519IdentityFromScalar", "ret:0", []string{"C04", "C05", "C01"}},
 	{"newX25519IdentityFromScalar.guards", pkgAge, "", "newX25519IdentityFromScalar", "facts:ret", []string{"C05"}},
-	{"X25519Identity.Recipient.result", pkgAge, "X25519Identity", "Recipient", "ret:0", []string{"C05", "C01"}},
-	{"newX25519RecipientFromPoint.result", pkgAge, "", "newX25519RecipientFromPoint", "ret:0", []string{"C05", "C01"}},
+	{"X25519Identity.Recipient.result", pkgAge, "X25519Identity", "Recipient", "ret:0", []string{"C04", "C05", "C01"}},
+	{"newX25519RecipientFromPoint.result", pkgAge, "", "newX25519RecipientFromPoint", "ret:0", []string{"C04", "C05", "C01"}},
 	{"newX25519RecipientFromPoint.guards", pkgAge, "", "newX25519RecipientFromPoint", "facts:ret", []string{"C05"}},
 	{"ParseX25519Recipient.hrp", pkgAge, "", "ParseX25519Recipient", "facts:ret", []string{"C05", "C09"}},
 	{"ParseX25519Identity.hrp", pkgAge, "", "ParseX25519Identity", "facts:ret", []string{"C05", "C09"}},
 	{"X25519Recipient.String.encode", pkgAge, "X25519Recipient", "String", "ret:0", []string{"C05", "C09"}},
 	{"X25519Identity.String.encode", pkgAge, "X25519Identity", "String", "ret:0", []string{"C05", "C09"}},
 	// scrypt
-	{"ScryptRecipient.Wrap.stanzas", pkgAge, "ScryptRecipient", "Wrap", "ret:0", []string{"C05", "C01", "C06"}},
-	{"ScryptIdentity.unwrap.result", pkgAge, "ScryptIdentity", "unwrap", "ret:0", []string{"C05", "C01"}},
+	{"ScryptRecipient.Wrap.stanzas", pkgAge, "ScryptRecipient", "Wrap", "ret:0", []string{"C04", "C05", "C01", "C06"}},
+	{"ScryptIdentity.unwrap.result", pkgAge, "ScryptIdentity", "unwrap", "ret:0", []string{"C04", "C05", "C01"}},
 	{"ScryptIdentity.unwrap.guards", pkgAge, "ScryptIdentity", "unwrap", "facts:scrypt.Key", []string{"C05", "C01"}},
 	{"NewScryptRecipient.result", pkgAge, "", "NewScryptRecipient", "ret:0", []string{"C05"}},
 	{"NewScryptIdentity.result", pkgAge, "", "NewScryptIdentity", "ret:0", []string{"C05"}},
@@ -54,18 +54,18 @@ var recipeSites = []Site{
 	{"RSAIdentity.unwrap.result", pkgSSH, "RSAIdentity", "unwrap", "ret:0", []string{"C05", "C01"}},
 	{"RSAIdentity.unwrap.guards", pkgSSH, "RSAIdentity", "unwrap", "facts:rsa.DecryptOAEP", []string{"C05", "C01"}},
 	{"NewRSARecipient.guards", pkgSSH, "", "NewRSARecipient", "facts:ret", []string{"C05"}},
-	{"RSAIdentity.Recipient.result", pkgSSH, "RSAIdentity", "Recipient", "ret:0", []string{"C05", "C01"}},
-	{"NewRSAIdentity.result", pkgSSH, "", "NewRSAIdentity", "ret:0", []string{"C05", "C01"}},
+	{"RSAIdentity.Recipient.result", pkgSSH, "RSAIdentity", "Recipient", "ret:0", []string{"C04", "C05", "C01"}},
+	{"NewRSAIdentity.result", pkgSSH, "", "NewRSAIdentity", "ret:0", []string{"C04", "C05", "C01"}},
 	// ssh-ed25519
 	{"Ed25519Recipient.Wrap.stanzas", pkgSSH, "Ed25519Recipient", "Wrap", "ret:0", []string{"C05", "C01", "C06"}},
 	{"Ed25519Identity.unwrap.result", pkgSSH, "Ed25519Identity", "unwrap", "ret:0", []string{"C05", "C01"}},
 	{"Ed25519Identity.unwrap.guards", pkgSSH, "Ed25519Identity", "unwrap", "facts:agessh.aeadDecrypt", []string{"C05", "C01"}},
-	{"NewEd25519Recipient.result", pkgSSH, "", "NewEd25519Recipient", "ret:0", []string{"C05", "C01"}},
+	{"NewEd25519Recipient.result", pkgSSH, "", "NewEd25519Recipient", "ret:0", []string{"C04", "C05", "C01"}},
 	{"NewEd25519Recipient.guards", pkgSSH, "", "NewEd25519Recipient", "facts:ret", []string{"C05"}},
 	{"ed25519PublicKeyToCurve25519.result", pkgSSH, "", "ed25519PublicKeyToCurve25519", "ret:0", []string{"C05", "C01"}},
-	{"NewEd25519Identity.result", pkgSSH, "", "NewEd25519Identity", "ret:0", []string{"C05", "C01"}},
+	{"NewEd25519Identity.result", pkgSSH, "", "NewEd25519Identity", "ret:0", []string{"C04", "C05", "C01"}},
 	{"ed25519PrivateKeyToCurve25519.result", pkgSSH, "", "ed25519PrivateKeyToCurve25519", "ret:0", []string{"C05", "C01"}},
-	{"Ed25519Identity.Recipient.result", pkgSSH, "Ed25519Identity", "Recipient", "ret:0", []string{"C05", "C01"}},
+	{"Ed25519Identity.Recipient.result", pkgSSH, "Ed25519Identity", "Recipient", "ret:0", []string{"C04", "C05", "C01"}},
 	// payload key agreement
 	{"Encrypt.NewWriter.key", pkgAge, "", "Encrypt", "arg:stream.NewWriter:0", []string{"C05", "C01", "C06"}},
 	{"Encrypt.NewWriter.dst", pkgAge, "", "Encrypt", "arg:stream.NewWriter:1", []string{"C05", "C01"}},
@@ -105,6 +105,10 @@ var recipeSites = []Site{
 	{"armor.NewWriter.result", pkgArmor, "", "NewWriter", "ret:0", []string{"C05", "C08"}},
 	{"armor.Write.header", pkgArmor, "armoredWriter", "Write", "arg:io.WriteString:1", []string{"C05", "C08"}},
 	{"armor.Read.decoder", pkgArmor, "armoredReader", "Read", "arg:(*base64.Encoding).Decode:0", []string{"C05", "C08"}},
+	// bech32 regrouping
+	{"bech32.convertBits.range-error", pkgBech32, "", "convertBits", "facts:errret#1", []string{"C05", "C09"}},
+	{"bech32.convertBits.surplus-padding", pkgBech32, "", "convertBits", "facts:errret#2", []string{"C05", "C09"}},
+	{"bech32.convertBits.nonzero-padding", pkgBech32, "", "convertBits", "facts:errret#3", []string{"C05", "C09"}},
 	// plugin strings
 	{"plugin.EncodeIdentity.result", pkgPlugin, "", "EncodeIdentity", "arg:bech32.Encode:0", []string{"C05", "C09"}},
 	{"plugin.EncodeRecipient.result", pkgPlugin, "", "EncodeRecipient", "arg:bech32.Encode:0", []string{"C05", "C09"}},
